@@ -9,6 +9,7 @@ restores the link.  Notification: a change of the cell a deferring attribute
 currently reads through produces exactly one call per mechanism with the new
 value; a change of any other cell produces none.  See DESIGN.md section 4 / C11.
 """
+import collections
 import copy as copy_module
 import pickle
 
@@ -32,7 +33,10 @@ META = {
              "observe, both, none} on every deferring attribute.  Ops: assign through a deferring "
              "attribute (valid, coerced or invalid), assign the target on any terminal, swap a "
              "delegate reference (to either candidate, or to None and back), del a local value, "
-             "read, and a round trip of the whole structure "
+             "read, an assignment with a re-entrant handler armed (a handler on a deferring "
+             "attribute or on the delegate that reacts to the notifications it is told by assigning "
+             "the same target again, directly or through a deferring attribute, fixed values or "
+             "clamping, at most 3 reactions), and a round trip of the whole structure "
              "through pickle (protocols 2-5) / copy.deepcopy / clone_traits after which the history "
              "continues on the copies (their cells are adopted by observation, recorders are "
              "re-attached).  After every op the cells (terminal values, decoy attributes, local "
@@ -49,17 +53,23 @@ META = {
                   "must_after_del": 1500, "must_through_chain": 2500,
                   "coerced_assignments": 2500,
                   "roundtrip_pickle": 5000, "roundtrip_deepcopy": 2000, "roundtrip_clone": 2000,
-                  "none_linkbroken_after_pickle": 3500, "none_linkbroken_after_deepcopy": 2000,
-                  "none_linkbroken_after_clone": 2000, "must_after_pickle": 10000,
-                  "must_after_deepcopy": 4000, "must_after_clone": 4000,
-                  "must_inherited_prefix": 3000, "reads_inherited_prefix": 16000,
+                  "none_linkbroken_after_pickle": 3000, "none_linkbroken_after_deepcopy": 1800,
+                  "none_linkbroken_after_clone": 1700, "must_after_pickle": 9000,
+                  "must_after_deepcopy": 3500, "must_after_clone": 3500,
+                  "must_inherited_prefix": 2700, "reads_inherited_prefix": 16000,
                   "swap_to_none": 3000, "swap_from_none": 1500, "none_while_no_delegate": 12000,
-                  "none_former_after_none": 800, "none_linkbroken_after_none": 900,
-                  "must_after_none": 1400, "no_delegate_assign_checked": 4000,
-                  "no_delegate_reads": 12000},
+                  "none_former_after_none": 700, "none_linkbroken_after_none": 750,
+                  "must_after_none": 1200, "no_delegate_assign_checked": 4000,
+                  "no_delegate_reads": 12000,
+                  "reentrant_ops": 8000, "reentrant_must_checked": 8000,
+                  "reentrant_nested_changes": 6000, "reentrant_depth_2plus": 1200,
+                  "reentrant_must_through_chain": 1200, "reentrant_route_through": 1500,
+                  "reentrant_route_direct": 4000, "reentrant_on_front": 1500,
+                  "reentrant_on_middle": 1500, "reentrant_on_terminal": 1500,
+                  "reentrant_clamp": 2000},
         "thorough": {"evaluations": 4500000, "ops": 1650000, "notify_must_checked": 480000,
                      "notify_none_checked": 2200000, "invalid_checked": 100000, "del_checked": 90000,
-                     "swap_checked": 220000, "chain_ops": 800000, "must_after_swap": 100000,
+                     "swap_checked": 220000, "chain_ops": 800000, "must_after_swap": 85000,
                      "must_after_del": 38000, "must_through_chain": 55000,
                      "coerced_assignments": 60000,
                      "roundtrip_pickle": 65000, "roundtrip_deepcopy": 26000, "roundtrip_clone": 26000,
@@ -70,7 +80,13 @@ META = {
                      "swap_to_none": 40000, "swap_from_none": 20000, "none_while_no_delegate": 160000,
                      "none_former_after_none": 10000, "none_linkbroken_after_none": 12000,
                      "must_after_none": 18000, "no_delegate_assign_checked": 55000,
-                     "no_delegate_reads": 160000},
+                     "no_delegate_reads": 160000,
+                     "reentrant_ops": 100000, "reentrant_must_checked": 100000,
+                     "reentrant_nested_changes": 80000, "reentrant_depth_2plus": 16000,
+                     "reentrant_must_through_chain": 16000, "reentrant_route_through": 20000,
+                     "reentrant_route_direct": 50000, "reentrant_on_front": 20000,
+                     "reentrant_on_middle": 20000, "reentrant_on_terminal": 20000,
+                     "reentrant_clamp": 26000},
     },
     "assumptions": [
         "reading a plain (non-deferred) trait and obj.__dict__ are trusted observation channels",
@@ -80,6 +96,10 @@ META = {
         "while a delegate reference on the way is None, reads and writes of a deferring "
         "attribute are outside the statement (only: documented error classes, nothing changes, "
         "nothing is notified); the notification laws for former / current delegates continue",
+        "with re-entrant handlers every change of the target must be told to every handler of a "
+        "linked deferring attribute exactly once (multiset); the ORDER in which nested changes "
+        "reach a handler, hence which value it is told last, depends on handler registration "
+        "order in traits' nested dispatch and is counted but not judged",
         "which state a pickle / deepcopy / clone_traits copy preserves is not this property's "
         "subject (C14): the copy's cells are adopted by observation, only its behaviour "
         "afterwards is judged",
@@ -285,6 +305,25 @@ def kinds_from(n):
     return n.kinds
 
 
+def d_walk(n):
+    """Terminal node in which an assignment through n is stored when every level on
+    the way is a DelegatesTo (None otherwise: a prototype level or a cleared reference)."""
+    while n is not None and n.is_def:
+        if n.kind != "D":
+            return None
+        n = n.ref
+    return n
+
+
+def clamp(tt, told):
+    """Reaction of a normalising handler to the value it is told (None: fine as it is)."""
+    if tt in ("Int", "Range", "CInt"):
+        return 2 if type(told) is int and told > 2 else None
+    if tt == "Str":
+        return "a" if told != "a" else None
+    return "g" if told != "g" else None
+
+
 def delegateless(n):
     """n is a deferring (middle) node whose own delegate reference is None."""
     return n is not None and n.is_def and n.ref is None
@@ -392,6 +431,12 @@ class History:
         # object whose own delegate reference is None (swap of the front reference
         # to it, or a round trip in that state)
         self.hook_delegateless_ok = self.depth == 2 and rng.random() < 0.4
+        # stratum: re-entrant handlers (a handler that reacts to a notification by
+        # changing the same target again); the reacting handlers are attached only here
+        self.reentrant = rng.random() < 0.35
+        self.react_mech = rng.choice(["otc", "obs"])
+        self.armed = None
+        self.react_log = []
         self.nsteps = 15 if self.ctx.quick or rng.random() < 0.7 else 25
         names = ["x"]
         named = ["y", "z"]
@@ -423,6 +468,7 @@ class History:
                 "strata": {"front_write": self.front_write_ok,
                            "del_unlistenable": self.del_unlistenable_ok,
                            "hook_delegateless_middle": self.hook_delegateless_ok,
+                           "reentrant_handlers": self.react_mech if self.reentrant else False,
                            "prefixdiff": self.prefixdiff}}
 
     # -- construction -------------------------------------------------------
@@ -483,6 +529,33 @@ class History:
                 d.obj.on_trait_change(self.make_otc(d.serial, self.epoch), d.attr)
             if "obs" in self.mechs:
                 d.obj.observe(self.make_obs(d.serial, self.epoch), d.attr)
+        if self.reentrant:
+            # dormant unless armed by an op; registered after the recorders
+            for n, name in [(d, d.attr) for d in self.defs] + [(t, t.target) for t in self.terms]:
+                if self.react_mech == "otc":
+                    n.obj.on_trait_change(self.make_reactor(n.label, self.epoch, False), name)
+                else:
+                    n.obj.observe(self.make_reactor(n.label, self.epoch, True), name)
+
+    def make_reactor(self, label, epoch, is_observe):
+        def react(*args):
+            a = self.armed
+            if a is None or epoch != self.epoch or a["on"] != label or not a["plan"]:
+                return
+            told = args[0].new if is_observe else args[3]
+            w = a["plan"].pop(0)
+            if w == "clamp":
+                w = clamp(a["term"].tt, told)
+                if w is None:
+                    return
+            self.react_log.append(w)
+            if a["via"] is None:
+                setattr(a["term"].obj, a["term"].target, w)     # directly on the delegate
+            else:
+                setattr(a["via"].obj, a["via"].attr, w)         # through a deferring attribute
+        if is_observe:
+            return lambda event: react(event)
+        return lambda obj, name, old, new: react(obj, name, old, new)
 
     def make_otc(self, serial, epoch):
         log = self.log
@@ -692,13 +765,13 @@ class History:
             node = self.front
             if not self.front_write_ok:
                 node = self.front.ref or rng.choice(mids)    # same budget, one level down
-            return ("assign", node.label, self.draw_raw(node))
+            return self.maybe_reentrant(("assign", node.label, self.draw_raw(node)))
         if r < 0.40:
             node = rng.choice(mids)
-            return ("assign", node.label, self.draw_raw(node))
+            return self.maybe_reentrant(("assign", node.label, self.draw_raw(node)))
         if r < 0.68:
             t = (m_terminal(self.front) if rng.random() < 0.65 else None) or rng.choice(self.terms)
-            return ("assign_t", t.label, rng.choice(TT_VALID[t.tt]))
+            return self.maybe_reentrant(("assign_t", t.label, rng.choice(TT_VALID[t.tt])))
         if r < 0.82:
             node = self.front if rng.random() < 0.55 else rng.choice(self.defs)
             cleared = [d for d in self.defs if d.ref is None]
@@ -724,6 +797,44 @@ class History:
             # the whole structure goes through a copy; the history continues on the copy
             return ("roundtrip", rng.choice(ROUNDTRIPS))
         return ("read",)
+
+    def reentrant_target(self, op):
+        """Terminal node the (valid) assignment `op` stores into, when the op may carry
+        a reacting handler: no structure change on the way, no open-finding pattern."""
+        node = self.node(op[1])
+        if self.prefixdiff and node is self.front:
+            return None
+        t = d_walk(node)
+        if t is None:
+            return None
+        try:
+            ref_validate(t.tt, op[2])
+        except Reject:
+            return None
+        return t
+
+    def reactor_route_ok(self, on, through, t):
+        if not through:
+            return True
+        return on.is_def and d_walk(on) is t and not (self.prefixdiff and on is self.front)
+
+    def maybe_reentrant(self, op):
+        rng = self.rng
+        if not self.reentrant or rng.random() < 0.45:
+            return op
+        t = self.reentrant_target(op)
+        if t is None:
+            return op
+        told = [d for d in self.defs if self.write_verdicts(t, True)[d.serial][0] == "must"]
+        r = rng.random()
+        on = (rng.choice(told) if told and r < 0.65 else t if r < 0.85
+              else rng.choice(self.defs + self.terms))
+        through = rng.random() < 0.6 and self.reactor_route_ok(on, True, t)
+        if rng.random() < 0.3:
+            plan = ("clamp", "clamp")
+        else:
+            plan = tuple(rng.choice(TT_VALID[t.tt]) for _ in range(rng.choice([1, 1, 2, 3])))
+        return op + ((on.label, "through" if through else "direct", plan),)
 
     def draw_raw(self, node):
         rng = self.rng
@@ -753,7 +864,12 @@ class History:
         front_local = self.front.local is not ABSENT
         outcome = "ok"
         new = None
-        if name == "assign" and m_terminal(self.node(op[1])) is None:
+        if len(op) > 3 and name in ("assign", "assign_t"):
+            outcome = self.step_reentrant(op)
+            if outcome is None:             # conditions no longer met (shrunk history)
+                self.trace.pop()
+                return self.step(op[:3])
+        elif name == "assign" and m_terminal(self.node(op[1])) is None:
             # a delegate reference on the way is None: outside the statement, except
             # that a failure must be one of the documented error classes and that
             # nothing may change on any object or reach a handler
@@ -897,6 +1013,95 @@ class History:
                     op[1][0] if len(op) > 1 else "-", outcome, front_local,
                     tuple(d.local is not ABSENT for d in self.defs[1:]),
                     self.front_verdict)
+
+    def step_reentrant(self, op):
+        """An assignment stored into terminal T while a handler is armed that reacts to
+        the notifications it is told by assigning the same target again (directly on
+        the delegate or through a deferring attribute; fixed values or clamping;
+        bounded by its plan).  The reactions are user code: what it wrote is taken from
+        its log, not predicted.  Judged: the cells, the reads, and that every handler
+        of a linked deferring attribute was told every change of T exactly once (as a
+        multiset: nested dispatch order is not the statement's subject)."""
+        ctx = self.ctx
+        name, label, raw, (on_label, route, plan) = op
+        node, on = self.node(label), self.node(on_label)
+        t = self.reentrant_target(op)
+        if t is None or not self.reactor_route_ok(on, route == "through", t):
+            return None
+        self.armed = {"on": on_label, "plan": list(plan), "term": t,
+                      "via": on if route == "through" else None}
+        del self.react_log[:]
+        what = "%s.%s = %r with a handler on %s reacting (%s, plan %r)" % (
+            node.label, node.target if not node.is_def else node.attr, raw, on_label, route, plan)
+        try:
+            setattr(node.obj, node.attr if node.is_def else node.target, raw)
+        except Exception as e:  # noqa: BLE001
+            self.armed = None
+            self.fail("assign-reentrant/%s/%s" % (type(e).__name__, kinds_from(self.front)),
+                      "%s raised %r" % (what, e))
+        self.armed = None
+        writes = [ref_validate(t.tt, raw)] + [ref_validate(t.tt, w) for w in self.react_log]
+        changes, prev = [], t.value
+        for v in writes:
+            if not (v == prev):
+                changes.append(v)
+                prev = v
+        t.value = prev
+        self.check_exc_channel("assign-reentrant")
+        self.check_state("assign-reentrant", self.front, "stored-wrong", "read-wrong")
+        verdicts = self.write_verdicts(t, bool(changes))
+        what += "; target values written %r" % (writes,)
+        missed = False
+        self.front_verdict = verdicts[self.front.serial][0] if self.mechs else "unobserved"
+        for d in self.defs[::-1]:
+            verdict, why = verdicts[d.serial]
+            kk = "%s/%s" % (KIND_NAME[d.kind], d.style)
+            for mech in self.mechs:
+                calls = [(n, v) for (s, m, n, v) in self.log if s == d.serial and m == mech]
+                if verdict == "none":
+                    ctx.ev()
+                    ctx.count("notify_none_checked")
+                    if calls:
+                        self.fail("notify/spurious/%s/%s" % (kk, why),
+                                  "%s handler of %s.%s called %r after %s although %s"
+                                  % (mech, d.label, d.attr, calls, what, why))
+                elif verdict == "must":
+                    ctx.ev()
+                    ctx.count("reentrant_must_checked")
+                    if len(m_end(d)[0]) > 1:
+                        ctx.count("reentrant_must_through_chain")
+                    told = collections.Counter((type(v).__name__, v) for _, v in calls)
+                    owed = collections.Counter((type(v).__name__, v) for v in changes)
+                    if owed - told:
+                        self.fail("notify/reentrant-missing/%s" % kk,
+                                  "%s handler of %s.%s was told %r after %s; changes %r: never told %r"
+                                  % (mech, d.label, d.attr, [v for _, v in calls], what, changes,
+                                     [v for _, v in (owed - told).elements()]))
+                    if told - owed:
+                        self.fail("notify/reentrant-extra/%s" % kk,
+                                  "%s handler of %s.%s was told %r after %s; changes only %r"
+                                  % (mech, d.label, d.attr, [v for _, v in calls], what, changes))
+                    if any(n != d.attr for n, _ in calls):
+                        self.fail("notify/wrong-name/%s" % kk,
+                                  "%s handler of %s.%s got names %r" % (mech, d.label, d.attr, calls))
+                    # not judged (dispatch order): was the value told last the current one?
+                    ctx.count("reentrant_last_told_current" if same_value(calls[-1][1], changes[-1])
+                              else "reentrant_last_told_superseded")
+                else:
+                    ctx.count("notify_unjudged")
+        ctx.count("reentrant_ops")
+        ctx.count("reentrant_route_" + route)
+        ctx.count("reentrant_on_" + ("terminal" if not on.is_def else "front" if on is self.front else "middle"))
+        if plan and plan[0] == "clamp":
+            ctx.count("reentrant_clamp")
+        nested = max(0, len(changes) - 1) if self.react_log else 0
+        if self.react_log:
+            ctx.count("reentrant_reactions", len(self.react_log))
+        if nested:
+            ctx.count("reentrant_nested_changes", nested)
+            if nested > 1:
+                ctx.count("reentrant_depth_2plus")
+        return "reentrant-%d" % min(nested, 2)
 
     def roundtrip(self, how):
         """Replace every object by its copy and *adopt* the copy's cells by
